@@ -191,8 +191,11 @@ func (m *Machine) buildQuery(s *SMT, o *Obligation) string {
 	q.WriteString(s.base)
 	syms := smtSymbols(all)
 	for _, cc := range s.conds {
-		if syms[cc.sym] {
-			q.WriteString(cc.text)
+		for _, one := range strings.Fields(cc.sym) {
+			if syms[one] {
+				q.WriteString(cc.text)
+				break
+			}
 		}
 	}
 	for _, d := range m.syms.declsFor(all) {
